@@ -5,7 +5,7 @@
 From Coq Require Import ZArith List.
 From NTT Require Import Functors Algebra Inverse NTTInst NTTClosed NTTTables Shards Permut Tables FlatTable Fused GenEq.
 From NTT.gen Require Gen GenLoop.
-From NTT Require Structural GenLoopEq.
+From NTT Require Structural GenLoopEq ScalarOps GenPrepEq.
 From NTT.gen Require Import Params.
 Local Open Scope Z_scope.
 
@@ -107,17 +107,58 @@ Print Assumptions C02_source_degree2.
 (* THE LOOPS OF THE SOURCE (gen/GenLoop.v, translated by tools/cxxloop2coq.py on every run): poly::core::ntt with ntt_loop<serial>::run --
    loop bounds, the index expressions N*r+i(+N/2), the table pointers advancing by N/2 per layer, the last two layers four by four, the
    final strict reduction, every array access bounds-checked -- computes, on the tables as the library lays them out (one flat array per
-   table, Shoup companions beside it), exactly Structural.ntt_core, the model the theorems above are stated on.  Any degree 4..2^30. *)
-Theorem C02_source_loops_serial : forall k p om x0, (2 <= k <= 30)%nat -> 1 < p -> length x0 = (2 ^ k)%nat ->
-  let W := FlatTable.flat p k om in let tws := fun lvl => List.nth lvl (Tables.prep p k om) nil in
-  (p < 2 ^ 14 -> List.Forall (fun v => 0 <= v < 2 ^ 16) x0 ->
-     GenLoop.gen_ntt_serial_u16 (Z.of_nat (2 ^ k)) x0 0 W 0 (List.map (fun v => (v * 2 ^ 16) / p) W) 0 p =
+   table, Shoup companions beside it, reduced data behind them), exactly Structural.ntt_core, the model the theorems above are stated on.
+   Any degree 4..2^30. *)
+Theorem C02_source_loops_serial : forall k p om padW padW' x0, (2 <= k <= 30)%nat -> 1 < p -> List.Forall (fun v => 0 <= v < p) padW -> length x0 = (2 ^ k)%nat ->
+  let W := (FlatTable.flat p k om ++ padW)%list in let W' := fun w => (List.map (fun v => (v * 2 ^ w) / p) (FlatTable.flat p k om) ++ padW')%list in
+  let tws := fun lvl => List.nth lvl (Tables.prep p k om) nil in
+  (p < 2 ^ 14 -> List.Forall (fun v => 0 <= v < 2 ^ 16) padW' -> List.Forall (fun v => 0 <= v < 2 ^ 16) x0 ->
+     GenLoop.gen_ntt_serial_u16 (Z.of_nat (2 ^ k)) x0 0 W 0 (W' 16) 0 p =
      Some ((Structural.ntt_core 16 p k tws x0, Z.of_nat (2 ^ k), Z.of_nat (FlatTable.off k (k - 2)), Z.of_nat (FlatTable.off k (k - 2))), true)) /\
-  (4 * p <= 2 ^ 32 -> List.Forall (fun v => 0 <= v < 2 ^ 32) x0 ->
-     GenLoop.gen_ntt_serial_u32 (Z.of_nat (2 ^ k)) x0 0 W 0 (List.map (fun v => (v * 2 ^ 32) / p) W) 0 p =
+  (4 * p <= 2 ^ 32 -> List.Forall (fun v => 0 <= v < 2 ^ 32) padW' -> List.Forall (fun v => 0 <= v < 2 ^ 32) x0 ->
+     GenLoop.gen_ntt_serial_u32 (Z.of_nat (2 ^ k)) x0 0 W 0 (W' 32) 0 p =
      Some ((Structural.ntt_core 32 p k tws x0, Z.of_nat (2 ^ k), Z.of_nat (FlatTable.off k (k - 2)), Z.of_nat (FlatTable.off k (k - 2))), true)) /\
-  (4 * p <= 2 ^ 64 -> List.Forall (fun v => 0 <= v < 2 ^ 64) x0 ->
-     GenLoop.gen_ntt_serial_u64 (Z.of_nat (2 ^ k)) x0 0 W 0 (List.map (fun v => (v * 2 ^ 64) / p) W) 0 p =
+  (4 * p <= 2 ^ 64 -> List.Forall (fun v => 0 <= v < 2 ^ 64) padW' -> List.Forall (fun v => 0 <= v < 2 ^ 64) x0 ->
+     GenLoop.gen_ntt_serial_u64 (Z.of_nat (2 ^ k)) x0 0 W 0 (W' 64) 0 p =
      Some ((Structural.ntt_core 64 p k tws x0, Z.of_nat (2 ^ k), Z.of_nat (FlatTable.off k (k - 2)), Z.of_nat (FlatTable.off k (k - 2))), true)).
 Proof. exact GenLoopEq.source_loops_serial. Qed.
 Print Assumptions C02_source_loops_serial.
+(* THE TABLE PREPARATION OF THE SOURCE (prep_wtab: a while loop halving K, a for loop writing  *wtab++ = wi; *wtabshoup++ = (wi << w) / p;
+   wi = mulmod(wi, w), then w = mulmod(w, w)): for every table row it fills the two arrays with FlatTable.flat and its Shoup companions (and
+   leaves the rest of the arrays alone), never writing outside them; and on those arrays core::ntt of every build is the model's transform. *)
+Theorem C02_source_tables : forall fuel k om A0 B0 cm, (k <= 30)%nat -> (k < fuel)%nat -> (2 ^ k - 1 <= length A0)%nat -> (2 ^ k - 1 <= length B0)%nat ->
+  (forall p, ScalarOps.Hrow 16 p -> 0 <= om < p ->
+     GenLoop.gen_prep_wtab_u16 fuel (Z.of_nat (2 ^ k)) A0 0 B0 0 om cm p = Some (GenPrepEq.tables_of 16 p k om A0 B0, Z.of_nat (2 ^ k - 1), Z.of_nat (2 ^ k - 1))) /\
+  (forall p, ScalarOps.Hrow 32 p -> 0 <= om < p ->
+     GenLoop.gen_prep_wtab_u32 fuel (Z.of_nat (2 ^ k)) A0 0 B0 0 om cm p = Some (GenPrepEq.tables_of 32 p k om A0 B0, Z.of_nat (2 ^ k - 1), Z.of_nat (2 ^ k - 1))) /\
+  (forall p pn, ScalarOps.Hrow64 p pn -> 0 <= om < p ->
+     GenLoop.gen_prep_wtab_u64 fuel (Z.of_nat (2 ^ k)) A0 0 B0 0 om cm p pn = Some (GenPrepEq.tables_of 64 p k om A0 B0, Z.of_nat (2 ^ k - 1), Z.of_nat (2 ^ k - 1))).
+Proof.
+  exact (fun fuel k om A0 B0 cm Hk Hf HA HB => conj (fun p H Hom => GenPrepEq.prep_u16_ok fuel k p om A0 B0 cm H Hom Hk Hf HA HB)
+    (conj (fun p H Hom => GenPrepEq.prep_u32_ok fuel k p om A0 B0 cm H Hom Hk Hf HA HB) (fun p pn H Hom => GenPrepEq.prep_u64_ok fuel k p pn om A0 B0 cm H Hom Hk Hf HA HB))).
+Qed.
+Print Assumptions C02_source_tables.
+Theorem C02_source_tables_then_transform_u32 : forall fuel k p om A0 B0 cm x0, ScalarOps.Hrow 32 p -> 0 <= om < p -> (3 <= k <= 30)%nat -> (k < fuel)%nat ->
+  (2 ^ k - 1 <= length A0)%nat -> (2 ^ k - 1 <= length B0)%nat -> List.Forall (fun v => 0 <= v < p) (List.skipn (2 ^ k - 1) A0) -> List.Forall (fun v => 0 <= v < 2 ^ 32) (List.skipn (2 ^ k - 1) B0) ->
+  length x0 = (2 ^ k)%nat -> List.Forall (fun v => 0 <= v < 2 ^ 32) x0 ->
+  let out := Some ((Structural.ntt_core 32 p k (fun lvl => List.nth lvl (Tables.prep p k om) nil) x0, Z.of_nat (2 ^ k), Z.of_nat (FlatTable.off k (k - 2)), Z.of_nat (FlatTable.off k (k - 2))), true) in
+  GenPrepEq.after_prep (GenLoop.gen_prep_wtab_u32 fuel (Z.of_nat (2 ^ k)) A0 0 B0 0 om cm p) (fun WA WB =>
+    GenLoop.gen_ntt_serial_u32 (Z.of_nat (2 ^ k)) x0 0 WA 0 WB 0 p = out /\ GenLoop.gen_ntt_sse_u32 (Z.of_nat (2 ^ k)) x0 0 WA 0 WB 0 p = out /\ GenLoop.gen_ntt_avx2_u32 (Z.of_nat (2 ^ k)) x0 0 WA 0 WB 0 p = out).
+Proof. exact GenPrepEq.source_tables_then_transform_u32. Qed.
+Print Assumptions C02_source_tables_then_transform_u32.
+Theorem C02_source_tables_then_transform_u16 : forall fuel k p om A0 B0 cm x0, ScalarOps.Hrow 16 p -> 0 <= om < p -> (3 <= k <= 30)%nat -> (k < fuel)%nat ->
+  (2 ^ k - 1 <= length A0)%nat -> (2 ^ k - 1 <= length B0)%nat -> List.Forall (fun v => 0 <= v < p) (List.skipn (2 ^ k - 1) A0) -> List.Forall (fun v => 0 <= v < 2 ^ 16) (List.skipn (2 ^ k - 1) B0) ->
+  length x0 = (2 ^ k)%nat -> List.Forall (fun v => 0 <= v < 2 ^ 16) x0 ->
+  let out := Some ((Structural.ntt_core 16 p k (fun lvl => List.nth lvl (Tables.prep p k om) nil) x0, Z.of_nat (2 ^ k), Z.of_nat (FlatTable.off k (k - 2)), Z.of_nat (FlatTable.off k (k - 2))), true) in
+  GenPrepEq.after_prep (GenLoop.gen_prep_wtab_u16 fuel (Z.of_nat (2 ^ k)) A0 0 B0 0 om cm p) (fun WA WB =>
+    GenLoop.gen_ntt_serial_u16 (Z.of_nat (2 ^ k)) x0 0 WA 0 WB 0 p = out /\ GenLoop.gen_ntt_sse_u16 (Z.of_nat (2 ^ k)) x0 0 WA 0 WB 0 p = out /\ GenLoop.gen_ntt_avx2_u16 (Z.of_nat (2 ^ k)) x0 0 WA 0 WB 0 p = out).
+Proof. exact GenPrepEq.source_tables_then_transform_u16. Qed.
+Print Assumptions C02_source_tables_then_transform_u16.
+Theorem C02_source_tables_then_transform_u64 : forall fuel k p pn om A0 B0 cm x0, ScalarOps.Hrow64 p pn -> 0 <= om < p -> (3 <= k <= 30)%nat -> (k < fuel)%nat ->
+  (2 ^ k - 1 <= length A0)%nat -> (2 ^ k - 1 <= length B0)%nat -> List.Forall (fun v => 0 <= v < p) (List.skipn (2 ^ k - 1) A0) -> List.Forall (fun v => 0 <= v < 2 ^ 64) (List.skipn (2 ^ k - 1) B0) ->
+  length x0 = (2 ^ k)%nat -> List.Forall (fun v => 0 <= v < 2 ^ 64) x0 ->
+  let out := Some ((Structural.ntt_core 64 p k (fun lvl => List.nth lvl (Tables.prep p k om) nil) x0, Z.of_nat (2 ^ k), Z.of_nat (FlatTable.off k (k - 2)), Z.of_nat (FlatTable.off k (k - 2))), true) in
+  GenPrepEq.after_prep (GenLoop.gen_prep_wtab_u64 fuel (Z.of_nat (2 ^ k)) A0 0 B0 0 om cm p pn) (fun WA WB =>
+    GenLoop.gen_ntt_serial_u64 (Z.of_nat (2 ^ k)) x0 0 WA 0 WB 0 p = out /\ GenLoop.gen_ntt_sse_u64 (Z.of_nat (2 ^ k)) x0 0 WA 0 WB 0 p = out /\ GenLoop.gen_ntt_avx2_u64 (Z.of_nat (2 ^ k)) x0 0 WA 0 WB 0 p = out).
+Proof. exact GenPrepEq.source_tables_then_transform_u64. Qed.
+Print Assumptions C02_source_tables_then_transform_u64.
